@@ -140,7 +140,8 @@ fn make(kind: &str, par: &Value, conc: &Conc, cmd: Option<Command>) -> Machine {
                     "fol" => {
                         let o = &ev["o"];
                         *fol2.borrow_mut() = match s(o, "c") {
-                            "some" => Ok(Some(Datum::new(t, cmd_of(o, c)))),
+                            // stamped with a time that runs backwards: the followed datum's timestamp must not matter
+                            "some" => Ok(Some(Datum::new(Time(-t.0), cmd_of(o, c)))),
                             "none" => Ok(None),
                             _ => Err(mk_err(i(o, "e"))),
                         };
@@ -350,7 +351,8 @@ fn replay(beh: &Value, line: usize, conc: &Conc, rep: &mut Report, structure_onl
     let kind = s(beh, "kind");
     let par = &beh["par"];
     let steps = beh["steps"].as_array().unwrap();
-    if beh["dimcheck"].as_bool() != Some(DIMCHECK) {
+    // only the to-state converters consult units; every other kind behaves the same with and without dimension checking
+    if matches!(kind, "AccToState" | "VelToState" | "PosToState") && beh["dimcheck"].as_bool() != Some(DIMCHECK) {
         eprintln!("behaviour file was generated for DimCheck={} but the harness was built with {}", beh["dimcheck"], DIMCHECK);
         std::process::exit(2);
     }
